@@ -32,6 +32,7 @@ type Config struct {
 	MergeFuncs  map[string]bool // pure functions summarised by ITE-merging their paths
 	ExactReal   bool            // concrete float divisions that are inexact are kept as exact rationals
 	UFStubs     map[string]bool // float-valued functions replaced by an uninterpreted function of their scalar arguments
+	LatticeFirst bool           // NRA obligations: try the dyadic-lattice query before the unrestricted one
 	FeasMs      int             // shorter solver timeout for branch-feasibility queries (unknown keeps both sides)
 }
 
@@ -281,7 +282,7 @@ func (w *Worker) runPath(fn *ssa.Function, args []interface{}, prefix []int64, o
 		maxSteps = 20_000_000
 	}
 	pc := &pathCtx{solver: w.Solver, prefix: prefix, stats: out.Stats, maxSteps: maxSteps, names: map[string]int{},
-		floatFP: w.Cfg.FloatFP, mapOrder: w.Cfg.MapOrder, feasMs: w.Cfg.FeasMs}
+		floatFP: w.Cfg.FloatFP, mapOrder: w.Cfg.MapOrder, feasMs: w.Cfg.FeasMs, latticeFirst: w.Cfg.LatticeFirst}
 	i := w.newInterp(pc)
 	w.Solver.Push()
 	defer func() {
